@@ -146,3 +146,19 @@ def lookup3_final(a, b, c):
 
 
 LOOKUP3_INIT = 0xDEADBEEF
+
+
+# ---- header / table-entry layouts of the published format --------------------------------------
+# (name, width) in file order
+HEADER_V1 = [("signature", 4), ("header_size", 4), ("archive_size", 4), ("format_version", 2), ("block_size", 2),
+             ("hash_table_pos", 4), ("block_table_pos", 4), ("hash_table_size", 4), ("block_table_size", 4)]
+HEADER_V2_EXT = [("hi_block_table_pos", 8), ("hash_table_pos_hi", 2), ("block_table_pos_hi", 2)]
+HEADER_V3_EXT = [("archive_size_64", 8), ("bet_table_pos", 8), ("het_table_pos", 8)]
+HEADER_V4_EXT = [("hash_table_size_64", 8), ("block_table_size_64", 8), ("hi_block_table_size_64", 8), ("het_table_size_64", 8),
+                 ("bet_table_size_64", 8), ("raw_chunk_size", 4),
+                 ("md5_block_table", 16), ("md5_hash_table", 16), ("md5_hi_block_table", 16), ("md5_bet_table", 16),
+                 ("md5_het_table", 16), ("md5_mpq_header", 16)]
+HEADER = {"V1": HEADER_V1, "V2": HEADER_V1 + HEADER_V2_EXT, "V3": HEADER_V1 + HEADER_V2_EXT + HEADER_V3_EXT,
+          "V4": HEADER_V1 + HEADER_V2_EXT + HEADER_V3_EXT + HEADER_V4_EXT}
+HASH_ENTRY = [("name_1", 4), ("name_2", 4), ("locale", 2), ("platform", 2), ("block_index", 4)]
+BLOCK_ENTRY = [("file_pos", 4), ("compressed_size", 4), ("file_size", 4), ("flags", 4)]
